@@ -92,19 +92,41 @@ def random_ops(rng, n, mode):
     return ops
 
 
+def guarded(mode, bufsize, ops, pipelined=False, secs=10):
+    """run one program on a fresh client/server pair, giving up (and reporting a hang) after secs seconds"""
+    import threading
+    res = {}
+    loop = Loop()
+
+    def run():
+        try:
+            res["d"] = run_program(mode, bufsize, ops, loop=loop, pipelined=pipelined)
+        except Exception as e:
+            res["d"] = [{"step": "harness", "error": repr(e)[:200]}]
+    th = threading.Thread(target=run, daemon=True)
+    th.start()
+    th.join(secs)
+    hung = th.is_alive()
+    try:
+        loop.close()
+    except Exception:
+        pass
+    if hung:
+        return [{"step": "hang", "why": "the program did not finish within %d s" % secs}]
+    return res.get("d", [])
+
+
 def fuzz(inp):
     rng = random.Random(ival(inp, "seed", 1))
     n = ival(inp, "programs", 40)
-    loop = Loop()
     bad = []
-    try:
+    if True:
         for i in range(n):
             mode = rng.choice(["r", "r+", "w", "w+", "a", "a+"])
             bufsize = rng.choice([-1, 0, 1, 2, 64, 8192, 65536])
             ops = random_ops(rng, rng.randrange(1, 12), mode)
-            d = run_program(mode, bufsize, ops, loop=loop, pipelined=rng.random() < 0.3)
+            pipelined = rng.random() < 0.3
+            d = guarded(mode, bufsize, ops, pipelined)
             if d:
-                bad.append({"mode": mode, "bufsize": bufsize, "ops": repr(ops)[:400], "diff": d[0]})
-    finally:
-        loop.close()
-    return {"violates": bool(bad), "evaluations": n, "detail": bad[:8]}
+                bad.append({"mode": mode, "bufsize": bufsize, "pipelined": pipelined, "ops": repr(ops)[:400], "diff": d[0]})
+    return {"violates": bool(bad), "evaluations": n, "detail": bad[:40]}
